@@ -359,7 +359,7 @@ def judge(job):
             for label, files, main in cases:
                 mode = ['--isar'] if main.endswith('.xml') else []
                 record(label, files, lambda d, main=main, mode=mode: mode + all_outs(d) + [os.path.join(d, main)],
-                       base_calls, label.split()[0])
+                       base_calls, ' '.join(label.split()[:3]))
         elif kind == 'options':
             combos, base_calls = items
             for combo in combos:
@@ -426,6 +426,63 @@ def include_cases():
     return cases
 
 
+def extra_texts():
+    """Hand-picked idioms that a single token edit of the bases does not reach."""
+    out = [
+        ('negative shift', 'const A = 1 << -1;\n'),
+        ('negative right shift', 'const A = 8 >> -2;\n'),
+        ('division by zero', 'const A = 1 / 0;\n'),
+        ('division by zero in size', 'struct X { u8 a[4 / (2 - 2)]; };\n'),
+        ('typedef of itself', 'typedef u8 A; typedef A A; struct S { A n; u8 x<@n>; };\n'),
+        ('typedef cycle', 'typedef B A; typedef A B;\n'),
+        ('struct of itself', 'struct S { S s; };\n'),
+        ('struct array of itself', 'struct S { S s<>; };\n'),
+        ('union of itself', 'union U { 1: U u; };\n'),
+        ('huge literal', 'const A = 99999999999999999999999999999999999999999999999999;\nstruct X { u8 a[A]; };\n'),
+        ('huge array', 'struct X { u8 a[4294967295]; };\n'),
+        ('deep parentheses', 'const A = ' + '(' * 200 + '1' + ')' * 200 + ';\n'),
+        ('very deep parentheses', 'const A = ' + '(' * 5000 + '1' + ')' * 5000 + ';\n'),
+        ('long sum', 'const A = ' + ' + '.join(['1'] * 3000) + ';\n'),
+        ('many members', 'struct X { ' + ' '.join('u8 f%d;' % i for i in range(1500)) + ' };\n'),
+        ('unterminated comment', 'struct X { u8 a; }; /* no end\n'),
+        ('unterminated string', '#include "abc\n'),
+        ('nul byte', 'struct X { u8 a; };\x00\n'),
+        ('non-ascii identifier', 'struct \u017b { u8 a; };\n'),
+        ('keyword as name', 'struct struct { u8 a; };\n'),
+        ('enum referencing itself', 'enum E { E_A = E_A };\n'),
+        ('const referencing itself', 'const A = A + 1;\n'),
+        ('sizer typedef float', 'typedef float F; struct X { F n; u8 x<@n>; };\n'),
+        ('discriminator expression', 'union U { 1 + 1: u8 a; 2: u8 b; };\n'),
+    ]
+    return out
+
+
+def extra_isar():
+    return [
+        ('isar division by zero', '<xml><constant name="K" value="1/0"/></xml>'),
+        ('isar negative shift', '<xml><constant name="K" value="1 &lt;&lt; -1"/></xml>'),
+        ('isar shiftLeft unbalanced', '<xml><constant name="K" value="shiftLeft(1, 2"/></xml>'),
+        ('isar shiftLeft nested', '<xml><constant name="K" value="shiftLeft(shiftLeft(1, 2), bitMaskOr(1, 2))"/></xml>'),
+        ('isar duplicate typedef cycle', '<xml><typedef name="A" type="B"/><typedef name="B" primitiveType="8 bit integer unsigned"/>'
+                                         '<typedef name="B" type="A"/><struct name="S"><member name="m" type="A"/></struct></xml>'),
+        ('isar duplicate struct', '<xml><struct name="S"><member name="a" type="u8"/></struct>'
+                                  '<struct name="S"><member name="b" type="u16"/></struct></xml>'),
+        ('isar duplicate member', '<xml><struct name="S"><member name="a" type="u8"/><member name="a" type="u16"/></struct></xml>'),
+        ('isar duplicate enum value', '<xml><enum name="E"><enum-member name="A" value="1"/><enum-member name="B" value="1"/></enum></xml>'),
+        ('isar unknown type', '<xml><struct name="S"><member name="a" type="Nope"/></struct></xml>'),
+        ('isar unknown size', '<xml><struct name="S"><member name="a" type="u8"><dimension size="NOPE"/></member></struct></xml>'),
+        ('isar size expression', '<xml><constant name="K" value="2"/><struct name="S"><member name="a" type="u8">'
+                                 '<dimension size="K" size2="3"/></member></struct></xml>'),
+        ('isar negative size', '<xml><struct name="S"><member name="a" type="u8"><dimension size="-1"/></member></struct></xml>'),
+        ('isar empty struct', '<xml><struct name="S"></struct><struct name="T"><member name="s" type="S"/></struct></xml>'),
+        ('isar empty union', '<xml><union name="U"></union></xml>'),
+        ('isar empty enum', '<xml><enum name="E"></enum><struct name="T"><member name="e" type="E"/></struct></xml>'),
+        ('isar optional array', '<xml><struct name="S"><member name="a" type="u8" optional="true"><dimension size="3"/></member></struct></xml>'),
+        ('isar include cycle through typedef', '<xml><typedef name="Y" type="X"/><typedef name="X" type="Y"/>'
+                                               '<struct name="S"><member name="a" type="u8"><dimension size="Y+1"/></member></struct></xml>'),
+    ]
+
+
 def baseline(files, argv_fn):
     d = T.fresh_dir('c13b')
     try:
@@ -474,6 +531,8 @@ def run(ctx):
     for k in range(0, len(ps), 200):
         jobs.append(('patch', (ps[k:k + 200], isar_calls), ctx.tier))
     jobs.append(('include', (include_cases(), 60000), ctx.tier))
+    jobs.append(('include', ([('idiom: ' + n, {'m.prophy': t}, 'm.prophy') for n, t in extra_texts()], 60000), ctx.tier))
+    jobs.append(('include', ([('idiom: ' + n, {'m.xml': t}, 'm.xml') for n, t in extra_isar()], 60000), ctx.tier))
     combos = []
     for r in (1, 2, 3):
         combos += list(itertools.combinations(OPTION_POOL, r))
